@@ -544,7 +544,7 @@ def run_stage(prop, tier, seed, stage, rng):
             h = engine.random_history(rng, allcharts[ci - 1], rd['length'], delays=rd.get('delays', (0,)),
                                       advances=rd.get('advances', ()), params=rd.get('params', (0,)),
                                       maxq=rd.get('maxq', 3), pfail=rd.get('pfail', 0.0),
-                                      pmfail=rd.get('pmfail', 0.0))
+                                      pmfail=rd.get('pmfail', 0.0), pexec=rd.get('pexec', 0.0))
             if stage.get('jobs_for'):
                 kws = stage['jobs_for'](ci, h, rng)
                 if kws:
